@@ -1,7 +1,7 @@
 (* Extraction of the executable models (ExtrOcamlBasic only: bool, option,
    list, prod, unit, sumbool map to OCaml's; Z/N/positive stay inductive). *)
 From Coq Require Import Extraction ExtrOcamlBasic.
-From STS Require Import Model.Ranges Model.Chunk Model.Queue Model.LogM Model.Stage Model.Sender Model.Conf.
+From STS Require Import Model.Ranges Model.Chunk Model.Queue Model.LogM Model.Stage Model.Sender Model.Conf Model.Auth.
 Extraction Language OCaml.
 Set Extraction Optimize.
 Extraction "model.ml"
@@ -15,4 +15,5 @@ Extraction "model.ml"
   init_stage sstep prepare receive settle restart clean timers_fire received_q status_q scan_q
   ahas alookup log_has SETTLE_FUEL
   run_send on_poll track_add
-  effective reencode parse_tag propagate_tags.
+  effective reencode parse_tag propagate_tags
+  handle_validate is_local clean_rel clean_abs resolve names_local.
